@@ -658,10 +658,9 @@ Notes:
             else:
                 direc = asarray(direc, dtype=float)
             fval = squeeze(cost(x))
-            if self._maxiter != 0:
-                self._stepmon(x, fval, self.id) # get initial values
-                # if savefrequency matches, then save state
-                self._AbstractSolver__save_state()
+            self._stepmon(x, fval, self.id) # get initial values
+            # if savefrequency matches, then save state
+            self._AbstractSolver__save_state()
 
         elif not self.generations: # do generations = 1
             ilist = range(len(x))
@@ -710,10 +709,11 @@ Notes:
             self._direc = direc
             self.population[0] = x   # bestSolution
             self.popEnergy[0] = fval # bestEnergy
-            self.energy_history = None # resync with 'best' energy
-            self._stepmon(x, fval, self.id) # get ith values
-            # if savefrequency matches, then save state
-            self._AbstractSolver__save_state()
+            if self._energy_history is not None: # else logged by Finalize
+                self.energy_history = None # resync with 'best' energy
+                self._stepmon(x, fval, self.id) # get ith values
+                # if savefrequency matches, then save state
+                self._AbstractSolver__save_state()
 
             fx = fval
             bigind = 0
@@ -745,9 +745,21 @@ Notes:
         if init: self._termination(self) #XXX: at generation 0 or always?
         return #XXX: call Terminated ?
 
+    def SetGenerationMonitor(self, monitor, new=False):
+        """select a callable to monitor (x, f(x)) after each solver iteration
+
+input::
+    - a monitor instance or monitor type used to track (x, f(x)). Any data
+      collected in an existing generation monitor will be prepended, unless
+      new is True."""
+        if self._energy_history is not None: # log the pending iteration
+            self.energy_history = None # resync with 'best' energy
+            self._stepmon(self.bestSolution, self.bestEnergy, self.id)
+        return super(PowellDirectionalSolver, self).SetGenerationMonitor(monitor, new)
+
     def Finalize(self):
         """cleanup upon exiting the main optimization loop"""
-        if self.energy_history != None and self._live:
+        if self._energy_history is not None and self._live:
             self.energy_history = None # resync with 'best' energy
             self._stepmon(self.bestSolution, self.bestEnergy, self.id)
             # if savefrequency matches, then save state
